@@ -109,12 +109,12 @@ func defaultCfg(prop, tier string) *Cfg {
 
 // Scenario adapts the generic world to one property's workload and fault space.
 type Scenario interface {
-	Configure(w *World)                       // draw the swarm parameters, build cluster, preload
-	Boot(w *World)                            // start the initial members
-	TuneMember(w *World, m *Member)           // adjust a member's go-dcp config
-	BeforeStart(w *World, m *Member)          // after the Dcp object exists, before Start()
-	BeforeStep(w *World)                      // scripted steps; may set w.done
-	Actions(w *World) []Action                // scenario-specific actions
+	Configure(w *World)              // draw the swarm parameters, build cluster, preload
+	Boot(w *World)                   // start the initial members
+	TuneMember(w *World, m *Member)  // adjust a member's go-dcp config
+	BeforeStart(w *World, m *Member) // after the Dcp object exists, before Start()
+	BeforeStep(w *World)             // scripted steps; may set w.done
+	Actions(w *World) []Action       // scenario-specific actions
 	MemberActions(w *World, m *Member) []Action
 	ErrVariants(w *World, q *Req) []replyVariant
 	ReplyWeight(w *World, q *Req) (int, bool)
@@ -126,19 +126,19 @@ type Scenario interface {
 
 type baseScn struct{}
 
-func (baseScn) Configure(w *World)                             {}
-func (baseScn) Boot(w *World)                                  { w.addMember().start() }
-func (baseScn) TuneMember(w *World, m *Member)                 {}
-func (baseScn) BeforeStart(w *World, m *Member)                {}
-func (baseScn) BeforeStep(w *World)                            {}
-func (baseScn) Actions(w *World) []Action                      { return nil }
-func (baseScn) MemberActions(w *World, m *Member) []Action     { return nil }
-func (baseScn) ErrVariants(w *World, q *Req) []replyVariant    { return nil }
-func (baseScn) ReplyWeight(w *World, q *Req) (int, bool)       { return 0, false }
-func (baseScn) MayStall(w *World, c *Conn) bool                { return true }
-func (baseScn) MayDrop(w *World, c *Conn) bool                 { return true }
-func (baseScn) OnQuiesce(w *World)                             {}
-func (baseScn) AfterQuiesce(w *World)                          {}
+func (baseScn) Configure(w *World)                          {}
+func (baseScn) Boot(w *World)                               { w.addMember().start() }
+func (baseScn) TuneMember(w *World, m *Member)              {}
+func (baseScn) BeforeStart(w *World, m *Member)             {}
+func (baseScn) BeforeStep(w *World)                         {}
+func (baseScn) Actions(w *World) []Action                   { return nil }
+func (baseScn) MemberActions(w *World, m *Member) []Action  { return nil }
+func (baseScn) ErrVariants(w *World, q *Req) []replyVariant { return nil }
+func (baseScn) ReplyWeight(w *World, q *Req) (int, bool)    { return 0, false }
+func (baseScn) MayStall(w *World, c *Conn) bool             { return true }
+func (baseScn) MayDrop(w *World, c *Conn) bool              { return true }
+func (baseScn) OnQuiesce(w *World)                          {}
+func (baseScn) AfterQuiesce(w *World)                       {}
 
 var scenarios = map[string]func() Scenario{}
 
